@@ -21,15 +21,15 @@ const BATCH: u64 = 16;
 fn n_batches(prop: &str, tier: Tier) -> u64 {
     match (prop, tier) {
         ("C12", Tier::Quick) => 2_500,
-        ("C12", Tier::Thorough) => 80_000,
+        ("C12", Tier::Thorough) => 500_000,
         ("C13", Tier::Quick) => 2_500,
-        ("C13", Tier::Thorough) => 80_000,
+        ("C13", Tier::Thorough) => 300_000,
         ("C14", Tier::Quick) => 400,
-        ("C14", Tier::Thorough) => 12_000,
+        ("C14", Tier::Thorough) => 60_000,
         ("C15", Tier::Quick) => 6_000,
-        ("C15", Tier::Thorough) => 200_000,
+        ("C15", Tier::Thorough) => 1_500_000,
         ("C16", Tier::Quick) => 2_500,
-        ("C16", Tier::Thorough) => 80_000,
+        ("C16", Tier::Thorough) => 160_000,
         _ => 10,
     }
 }
